@@ -64,6 +64,7 @@ class CacheWorld(object):
     self.conns = []
     self.stop_step = None
     self.stopping = False
+    self.nstore_calls = 0
     self.window_left = None      # operations left inside an open shutdown window
     self.window_d = None
     self.stop_window_done = False
@@ -105,6 +106,7 @@ class CacheWorld(object):
     if self.settings.CARBON_METRIC_INTERVAL and not self.plan.get('pct_points'):
       s.file_p.setdefault('i', 0.4)
     s.p_unlocked = dict(self.plan.get('p_unlocked') or {})
+    s.stall = self.plan.get('stall')
     for pat, pp in (self.plan.get('hot') or []):
       s.heat(pat, pp)
     if self.plan.get('opcode'):
@@ -143,7 +145,16 @@ class CacheWorld(object):
 
     def cache_record(metric, value):
       me.reported[metric] = me.reported.get(metric, 0) + (value if isinstance(value, (int, float)) else 0)
-      return real_record(metric, value)
+      n0 = me.nstore_calls
+      r = real_record(metric, value)
+      if me.nstore_calls == n0 and not me.settings.RELAY_CACHE_METRICS:
+        # the daemon's own datapoints enter the cache like any other: stored, or refused
+        # with the overflow signal -- never dropped on the quiet
+        me.ctx.violation('C10', 'self-metric-dropped-without-signal', 'cache_record',
+                         'the instrumentation tick recorded %r = %r but never offered it to the cache '
+                         '(cache holds %d datapoints, hard limit %r): a refusal nobody is told about'
+                         % (metric, value, me.model.size, me.hard_max))
+      return r
     inst.cache_record = cache_record
     if self.plan.get('oversleep'):
       ov = self.plan['oversleep']
@@ -241,6 +252,7 @@ class CacheWorld(object):
 
   # ------------------------------------------------------------ op wrappers
   def wrap_store(self, real, metric, datapoint):
+    self.nstore_calls += 1
     t = self.s.cur
     ts, v = datapoint
     op = Op('store', metric, ts, v)
@@ -552,10 +564,19 @@ class CacheWorld(object):
     if not hasattr(self, 'udp_proto'):
       self.udp_proto = self.w.protocols.MetricDatagramReceiver()
     data = ''.join('%s %r %r\n' % (m, v, ts) for m, ts, v in dps).encode('utf-8')
+    n0 = self.nstore_calls
     try:
       self.udp_proto.datagramReceived(data, ('10.2.0.1', 5000))
     except Exception:
       txlog.err()
+    if self.nstore_calls - n0 != len(dps):
+      # a datagram socket is never paused: each of its datapoints is offered to the cache
+      # (stored, or refused with the overflow signal)
+      self.ctx.violation('C10', 'datagram-dropped-before-the-cache', 'udp',
+                         'a datagram with %d well-formed datapoints led to %d store() calls '
+                         '(receivers paused=%r, %d datapoints held, hard limit %r)' % (
+                           len(dps), self.nstore_calls - n0, self.w.state.metricReceiversPaused,
+                           self.model.size, self.hard_max))
 
   def query(self, metric, bulk=None):
     if self.query_conn is None or self.query_conn.disconnected:
